@@ -1,7 +1,7 @@
 #!/bin/bash
 # evaluate every delivered seed not yet recorded; serial (they patch /repo's working tree)
 cd /verif
-for d in /tmp/seed_C*/[a-z] /tmp/seed2_C*/[a-z] /tmp/seed3_C*/[a-z] /tmp/seed4_C*/[a-z] /tmp/seed5_C*/[a-z] /tmp/seed6_C*/[a-z]; do
+for d in /tmp/seed_C*/[a-z] /tmp/seed2_C*/[a-z] /tmp/seed3_C*/[a-z] /tmp/seed4_C*/[a-z] /tmp/seed5_C*/[a-z] /tmp/seed6_C*/[a-z] /tmp/seed7_C*/[a-z]; do
   [ -f "$d/patch.diff" ] || continue
   top=$(basename $(dirname $d)); v=$(basename $d)
   case $top in
@@ -10,6 +10,7 @@ for d in /tmp/seed_C*/[a-z] /tmp/seed2_C*/[a-z] /tmp/seed3_C*/[a-z] /tmp/seed4_C
     seed4_*) prop=${top#seed4_}; id="$prop-4$v";;
     seed5_*) prop=${top#seed5_}; id="$prop-5$v";;
     seed6_*) prop=${top#seed6_}; id="$prop-6$v";;
+    seed7_*) prop=${top#seed7_}; id="$prop-7$v";;
     *) prop=${top#seed_}; id="$prop-$v";;
   esac
   [ -f "seeded/$id/meta.json" ] && grep -q '"checks"' "seeded/$id/meta.json" && continue
